@@ -52,6 +52,9 @@ structure Flags where
   execByTreePath : Bool
   /-- resolvers read `by_parent().get(id, ())` (true) or `by_parent()[id]` (false) -/
   childrenGet : Bool
+  /-- `resolve_duplicate` (two directories in a tree without versioned directories) calls
+  `cancel_creation(existing)` only when `existing` has new contents (true) or always (false) -/
+  cancelGuarded : Bool
   deriving DecidableEq, Repr
 
 structure TT where
@@ -191,6 +194,15 @@ def tidLe (a b : Tid) : Bool := decide (toString a ≤ toString b)
 def nameIdLe (x y : String × Tid) : Bool :=
   if x.1 < y.1 then true else if x.1 = y.1 then tidLe x.2 y.2 else false
 
+def insertBy {α : Type} (le : α → α → Bool) (x : α) : List α → List α
+  | [] => [x]
+  | y :: ys => if le x y then x :: y :: ys else y :: insertBy le x ys
+
+/-- `name_ids.sort()` (insertion sort: structurally recursive, so the kernel can evaluate it) -/
+def isort {α : Type} (le : α → α → Bool) : List α → List α
+  | [] => []
+  | x :: xs => insertBy le x (isort le xs)
+
 def dupScan (tt : TT) : Option (String × Tid) → List (String × Tid) → List Conflict
   | _, [] => []
   | last, (n, t) :: rest =>
@@ -204,7 +216,7 @@ def dupScan (tt : TT) : Option (String × Tid) → List (String × Tid) → List
 def TT.duplicateEntries (tt : TT) : List Conflict :=
   if tt.newName.isEmpty && tt.newParent.isEmpty then []
   else tt.byParent.flatMap fun e =>
-    let nameIds := (e.2.filterMap fun c => (tt.finalName c).map fun n => (n, c)).mergeSort nameIdLe
+    let nameIds := (e.2.filterMap fun c => (tt.finalName c).map fun n => (n, c)) |> isort nameIdLe
     dupScan tt none nameIds
 
 def TT.parentTypeConflicts (tt : TT) : List Conflict :=
@@ -372,6 +384,7 @@ def TT.resolveDuplicate (fl : Flags) (tt : TT) (last cur : Tid) : Except Err TT 
       let tt := (tt.deleteContents existing).unversionFile existing
       -- cancel_creation: `del self._new_contents[trans_id]`
       if ahas tt.newContents existing then .ok { tt with newContents := aerase tt.newContents existing }
+      else if fl.cancelGuarded then .ok tt
       else .error .keyError
     else
       match tt.finalName existing with
@@ -454,6 +467,35 @@ def TT.resolve (fl : Flags) : Nat → TT → List Conflict → Resolved
 def passCount : Nat := 10
 
 def TT.resolveConflicts (fl : Flags) (tt : TT) : Resolved := TT.resolve fl passCount tt []
+
+/-- the key of a raw conflict in `CONFLICT_RESOLVERS` -/
+def Conflict.key : Conflict → String
+  | .unversionedParent _ => "unversioned parent"
+  | .parentLoop _ => "parent loop"
+  | .duplicate _ _ _ => "duplicate"
+  | .missingParent _ => "missing parent"
+  | .nonDirParent _ => "non-directory parent"
+  | .versioningNoContents _ => "versioning no contents"
+  | .unversionedExec _ => "unversioned executability"
+  | .nonFileExec _ => "non-file executability"
+  | .overwrite _ _ => "overwrite"
+  | .duplicateId _ _ => "duplicate id"
+
+/-- the conflict types `resolveOne` has a resolver for -/
+def Conflict.hasResolver : Conflict → Bool
+  | .unversionedExec _ | .nonFileExec _ | .overwrite _ _ => false
+  | _ => true
+
+inductive Outcome where
+  | applied (tt : TT)
+  | raised (e : Err)
+
+/-- `resolve_conflicts(tt); tt.apply()` (`apply` starts with `_check_malformed`) -/
+def TT.resolveAndApply (fl : Flags) (tt : TT) : Outcome :=
+  match tt.resolveConflicts fl with
+  | .clean tt' => if (tt'.findRawConflicts fl).isEmpty then .applied tt' else .raised .malformed
+  | .malformed _ => .raised .malformed
+  | .crashed e => .raised e
 
 /-! ### the result as a tree: entries per trans-id, then the path walk -/
 
@@ -552,46 +594,63 @@ structure Inode where
   exec : Bool
   deriving DecidableEq, Repr
 
-abbrev Disk := List (Tid × Inode)
+/-- one inode per trans-id (index = trans-id); ids without anything on disk have `kind = none` -/
+abbrev Disk := List Inode
 
-def TT.baseDisk (tt : TT) : Disk :=
-  (List.range tt.nbase).filterMap fun t =>
-    (tt.base[t]?).map fun b => (t, { parent := b.parent, name := b.name, attached := b.kind.isSome,
-                                      kind := b.kind, data := b.data, exec := b.exec })
+def Inode.empty : Inode := { parent := none, name := "", attached := false, kind := none, data := "", exec := false }
 
-def dUpdate (d : Disk) (t : Tid) (f : Inode → Inode) : Disk :=
-  d.map fun e => if e.1 == t then (e.1, f e.2) else e
+def TT.baseInode (tt : TT) (t : Tid) : Inode :=
+  match tt.base[t]? with
+  | some b => { parent := b.parent, name := b.name, attached := b.kind.isSome, kind := b.kind, data := b.data, exec := b.exec }
+  | none => Inode.empty
 
-/-- `_apply_removals`: deleted contents go to pending-deletion, entries whose
-path changes go to limbo -/
-def TT.applyRemovals (tt : TT) (d : Disk) : Disk :=
-  (List.range tt.nbase).foldl (fun d t =>
-    if t = TT.root then d
-    else if tt.removedContents.contains t then dUpdate d t (fun i => { i with attached := false, kind := none })
-    else if tt.pathChanged t then dUpdate d t (fun i => { i with attached := false })
-    else d) d
+def TT.baseDisk (tt : TT) : Disk := tt.ids.map tt.baseInode
 
-/-- the limbo file of a trans-id with new contents (`create_file` + `_set_mode`) -/
-def TT.limboInode (tt : TT) (t : Tid) (k : Kind) (data : String) : Inode :=
-  { parent := none, name := "", attached := false, kind := some k, data := data,
-    exec := k = .file && tt.treeKind t = some .file && tt.treeExec t }
+/-- one step of `_apply_removals`: deleted contents go to pending-deletion,
+an entry whose path changes goes to limbo (the root is skipped) -/
+def TT.removalStep (tt : TT) (t : Tid) (i : Inode) : Inode :=
+  if t = TT.root ∨ t ≥ tt.nbase then i
+  else if tt.removedContents.contains t then { i with attached := false, kind := none }
+  else if tt.pathChanged t then { i with attached := false }
+  else i
 
-/-- `_apply_insertions`: everything in limbo is renamed to its final place, then
-`_set_executability` -/
+def TT.applyRemovals (tt : TT) (d : Disk) : Disk := d.mapIdx (fun t i => tt.removalStep t i)
+
+/-- the limbo file of a trans-id with new contents (`create_file` + `_set_mode`: the
+mode of an existing regular file at the tree path is copied) -/
+def TT.limboInode (tt : TT) (t : Tid) (i : Inode) (k : Kind) (data : String) : Inode :=
+  { i with attached := false, kind := some k, data := data,
+           exec := k = .file && tt.treeKind t = some .file && tt.treeExec t }
+
+/-- one step of `_apply_insertions`: what is in limbo (new contents, or the entry
+moved there by the removal phase) is renamed to its final place; a rename of
+something that does not exist fails with ENOENT, which is swallowed -/
+def TT.insertionStep (tt : TT) (t : Tid) (i : Inode) : Inode :=
+  let i := match alookup tt.newContents t with
+    | some (k, d) => tt.limboInode t i k d
+    | none => i
+  if ahas tt.newContents t || tt.pathChanged t then
+    match tt.finalParent t, tt.finalName t with
+    | some p, some n => { i with parent := p, name := n, attached := i.kind.isSome }
+    | _, _ => i
+  else i
+
+/-- `_set_executability` for the ids in `_new_executability` -/
+def TT.chmodStep (tt : TT) (t : Tid) (i : Inode) : Inode :=
+  match alookup tt.newExec t with
+  | some b => { i with exec := b }
+  | none => i
+
 def TT.applyInsertions (tt : TT) (d : Disk) : Disk :=
-  let d := tt.newContents.foldl (fun d e =>
-    let ino := tt.limboInode e.1 e.2.1 e.2.2
-    if d.any (fun x => x.1 == e.1) then dUpdate d e.1 (fun i => { ino with parent := i.parent, name := i.name })
-    else d ++ [(e.1, ino)]) d
-  let d := tt.ids.foldl (fun d t =>
-    if ahas tt.newContents t || tt.pathChanged t then
-      match tt.finalParent t, tt.finalName t with
-      | some p, some n => dUpdate d t (fun i => { i with parent := p, name := n, attached := i.kind.isSome })
-      | _, _ => d
-    else d) d
-  tt.newExec.foldl (fun d e => dUpdate d e.1 (fun i => { i with exec := e.2 })) d
+  (d.mapIdx (fun t i => tt.insertionStep t i)).mapIdx (fun t i => tt.chmodStep t i)
 
 def TT.applyDisk (tt : TT) : Disk := tt.applyInsertions (tt.applyRemovals tt.baseDisk)
+
+/-- the disk after `resolve_conflicts(tt); tt.apply()` -/
+def TT.diskAfter (fl : Flags) (tt : TT) : Disk :=
+  match tt.resolveAndApply fl with
+  | .applied tt' => tt'.applyDisk
+  | .raised _ => tt.baseDisk
 
 /-! #### apply: bzr inventory -/
 
@@ -623,6 +682,13 @@ inductive DeltaItem where
   | put (fid : String) (e : InvEntry)
   deriving DecidableEq, Repr
 
+/-- the new inventory entry `_generate_inventory_delta` builds for trans-id `t` with final file id `f` -/
+def TT.deltaEntry (tt : TT) (t : Tid) (f : String) : InvEntry :=
+  let kind := match tt.finalKind t with
+    | some k => some k
+    | none => (tt.tidOfTreeFid f).bind tt.treeKind     -- stored_kind(id2path(file_id))
+  { parentFid := ((tt.finalParent t).getD none).bind tt.finalFid, name := (tt.finalName t).getD "", kind := kind }
+
 /-- `_generate_inventory_delta` -/
 def TT.generateDelta (tt : TT) : List DeltaItem :=
   let removals := tt.removedId.filterMap fun t =>
@@ -632,12 +698,7 @@ def TT.generateDelta (tt : TT) : List DeltaItem :=
   let puts := tt.inventoryAltered.filterMap fun t =>
     match tt.finalFid t with
     | none => none
-    | some f =>
-      let kind := match tt.finalKind t with
-        | some k => some k
-        | none => (tt.tidOfTreeFid f).bind tt.treeKind     -- stored_kind(id2path(file_id))
-      some (DeltaItem.put f { parentFid := ((tt.finalParent t).getD none).bind tt.finalFid,
-                              name := (tt.finalName t).getD "", kind := kind })
+    | some f => some (DeltaItem.put f (tt.deltaEntry t f))
   removals ++ puts
 
 def applyDelta (inv : Inv) : List DeltaItem → Inv
@@ -686,19 +747,22 @@ def invHasPath (inv : Inv) (p : List String) : Bool :=
   inv.any fun e => invPath inv (inv.length + 1) e.1 == some p
 
 def TT.appliedEntry (fl : Flags) (tt : TT) (t : Tid) (p : List String) : Entry :=
-  match alookup tt.applyDisk t with
+  match tt.applyDisk[t]? with
   | none => { kind := none, versioned := false }
   | some i =>
     let versioned := if fl.git then tt.gitIndex.any (fun q => p.isPrefixOf q) else invHasPath tt.appliedInv p
-    { kind := if i.attached then i.kind else none, data := if i.attached then i.data else "",
-      exec := i.attached && i.kind = some .file && i.exec, versioned := versioned }
+    let kind := if i.attached then i.kind else none
+    { kind := kind, data := if kind = some .file ∨ kind = some .symlink then i.data else "",
+      exec := kind = some .file && i.exec, versioned := versioned }
 
 /-- the entry the `final_*` functions describe (the specification both sides are compared with) -/
 def TT.finalEntry (tt : TT) (t : Tid) : Entry :=
   let kind := tt.finalKind t
-  let data := match alookup tt.newContents t with
-    | some (_, d) => d
-    | none => if kind.isSome then tt.treeData t else ""
+  let data := if kind = some .file ∨ kind = some .symlink then
+      (match alookup tt.newContents t with
+        | some (_, d) => d
+        | none => tt.treeData t)
+    else ""
   let exec := kind = some .file && (match alookup tt.newExec t with
     | some b => b
     | none => tt.treeKind t = some .file && tt.treeExec t)
